@@ -533,8 +533,16 @@ func runMConn(p *mcPlan, stallAfter time.Duration) (res mcResult) {
 		var wg sync.WaitGroup
 		var sa, sb *conn.SecretConnection
 		var ea, eb error
-		goGuard(&wg, &rmu, &res.pp, func() { sa, ea = conn.MakeSecretConnection(connA, key(0)) })
-		goGuard(&wg, &rmu, &res.pp, func() { sb, eb = conn.MakeSecretConnection(connB, key(1)) })
+		goGuard(&wg, &rmu, &res.pp, func() {
+			if sa, ea = conn.MakeSecretConnection(connA, key(0)); ea != nil {
+				c1.Close() // as callers do; lets the other end's handshake finish too
+			}
+		})
+		goGuard(&wg, &rmu, &res.pp, func() {
+			if sb, eb = conn.MakeSecretConnection(connB, key(1)); eb != nil {
+				c2.Close()
+			}
+		})
 		wg.Wait()
 		if res.pp != nil {
 			return
@@ -656,19 +664,27 @@ func runMConn(p *mcPlan, stallAfter time.Duration) (res mcResult) {
 					}
 				}
 			}); msg != "" {
+				rmu.Lock()
 				res.pp = &productPanic{msg, frame}
+				rmu.Unlock()
 			}
 			gate.open()
 			if stalled {
 				res.stall = "the sending side never wrote to the link after a message had been accepted"
 				break
 			}
-			if res.pp != nil {
+			rmu.Lock()
+			panicked := res.pp != nil
+			rmu.Unlock()
+			if panicked {
 				break
 			}
 		}
 	}
-	if res.pp == nil && res.stall == "" {
+	rmu.Lock()
+	panicked := res.pp != nil
+	rmu.Unlock()
+	if !panicked && res.stall == "" {
 		if msg, frame := ev.Try(func() {
 			if s := fwd.sendSentinels(abort); s != "" {
 				senMu.Lock()
@@ -676,7 +692,9 @@ func runMConn(p *mcPlan, stallAfter time.Duration) (res mcResult) {
 				senMu.Unlock()
 			}
 		}); msg != "" {
+			rmu.Lock()
 			res.pp = &productPanic{msg, frame}
+			rmu.Unlock()
 		}
 	}
 	wg.Wait()
